@@ -522,16 +522,16 @@ class Runner:
                 res.violations.append(dict(site=site, inputs=to_json(cin), observed=observed, info=jsonable(info), exact=exact,
                                            job=self.job.name, prop=self.job.prop))
                 return
-        # last resort: small perturbations of the solver's witness (de-gridding: values with many decimals, broken ties);
-        # a perturbed input counts only if the same requirement fails on the real code
-        for cin in tried[:2]:
-            for k, eps in enumerate((1.0 / 3e9, 7.0 / 9e11, -1.0 / 7e10)):
-                pin = _perturb(cin, eps)
-                ok, observed = self._replay_fails(pin, site)
-                if ok:
-                    res.violations.append(dict(site=site, inputs=to_json(pin), observed=observed, info=jsonable(info), exact=False,
-                                               job=self.job.name, prop=self.job.prop, note="perturbed solver witness"))
-                    return
+        # last resort: small perturbations of the solver's witness (de-gridding: values with many decimals, broken ties).
+        # The perturbation is applied to the *input variables* and is only used if every assumption of the job still holds,
+        # and it counts only if the same requirement then fails on the real code.
+        for model in self._perturbed_models(ctx, neg):
+            pin = concretize(self.inputs, model)
+            ok, observed = self._replay_fails(pin, site)
+            if ok:
+                res.violations.append(dict(site=site, inputs=to_json(pin), observed=observed, info=jsonable(info), exact=False,
+                                           job=self.job.name, prop=self.job.prop, note="perturbed solver witness"))
+                return
         res.unconfirmed.append(dict(site=site, inputs=to_json(tried[-1]) if tried else None, job=self.job.name))
 
     def _witness_models(self, ctx, extra=None):
@@ -580,6 +580,40 @@ class Runner:
                 yield s.model(), False
         finally:
             s.pop()
+
+    def _perturbed_models(self, ctx, extra):
+        s = ctx.solver
+        s.push()
+        try:
+            s.add(extra)
+            if s.check() != z3.sat:
+                return
+            base = s.model()
+        except z3.Z3Exception:
+            return
+        finally:
+            s.pop()
+        reals = [(nm, v) for nm, v in ctx.inputs.items() if v.sort() == z3.RealSort()]
+        if not reals:
+            return
+        for eps in (fractions.Fraction(1, 3 * 10 ** 9), fractions.Fraction(7, 9 * 10 ** 11), fractions.Fraction(-1, 7 * 10 ** 10)):
+            pairs = []
+            for k, (nm, v) in enumerate(reals):
+                val = _frac(base, v) + eps * (k + 1)
+                pairs.append((v, z3.RealVal(val)))
+            others = [(v, base.eval(v, model_completion=True)) for nm, v in ctx.inputs.items() if v.sort() != z3.RealSort()]
+            ok = True
+            for a_ in ctx.assumptions:
+                if not z3.is_true(z3.simplify(z3.substitute(a_, *(pairs + others)))):
+                    ok = False
+                    break
+            if not ok:
+                continue
+            t = z3.Solver()
+            for v, val in pairs + others:
+                t.add(v == val)
+            if t.check() == z3.sat:
+                yield t.model()
 
     def _other_model(self, ctx, model):
         s = ctx.solver
